@@ -45,14 +45,15 @@ Gate == <<
   Entry("SWAP", K0, 2, "builtin", 0), Entry("CZ", K0, 2, "builtin", 0), Entry("XY", <<1, 0, 0>>, 2, "builtin", 0), Entry("MS", <<1, 2, 0>>, 2, "builtin", 0),
   Entry("S", K0, 2, "ctrl", 1), Entry("CPHASE", <<1, 0, 0>>, 2, "builtin", 0),
   Entry("T", K0, 2, "ctrl", 1), Entry("Y", K0, 3, "ctrl", 2),
-  Entry("A4", K0, 4, "custom", 0) >>      \* wrapped gates that differ ONLY in the wrapped gate (same wrapper, arity, parameters)
+  Entry("A4", K0, 4, "custom", 0),
+  Entry("RZ", <<1, 0, 0>>, 2, "ctrl", 1) >>     \* a DIAGONAL two-qubit gate whose diagonal changes under bit reversal (c-S, CZ, ZZ do not)      \* wrapped gates that differ ONLY in the wrapped gate (same wrapper, arity, parameters)
 GMCompute(g) == LET e == Gate[g] IN
   CASE e.kind = "builtin" -> GateAt(e.name, e.k)
     [] e.kind = "ctrl" -> LET b == GateAt(e.name, e.k) IN MBlockId(Len(b) * (2^e.nc - 1), b)
     [] e.kind = "custom" -> IF e.name = "A2" THEN A2 ELSE IF e.name = "A3" THEN A3 ELSE A4
 GMTab == TLCEval([g \in 1..Len(Gate) |-> GMCompute(g)])
 GM(g) == gm[g]
-AlphabetQuick == {1, 2, 3, 5, 6, 8, 9, 10, 20, 22, 23}
+AlphabetQuick == {1, 2, 3, 5, 6, 8, 9, 10, 20, 22, 23, 25}
 AlphabetAll == 1..Len(Gate)
 
 \* ---- mechanism: _lift_matrix ----------------------------------------------------------------------------
